@@ -282,11 +282,150 @@ func (k *c10cov) collect(fn *ssa.Function, st types.Type, prefix string, depth i
 					if o := callee.Origin(); o != nil {
 						callee = o
 					}
-					k.collect(callee, sub, join(rel), depth+1)
+					// a reset helper counts for what it assigns on EVERY path through it: a
+					// store behind a condition (reset only when parked, only when dirty) leaves
+					// the previous request's value on the other branch
+					for p := range k.mustPaths(callee, sub, depth+1) {
+						if p == "" {
+							k.paths[join(rel)] = true
+						} else if rel == "" {
+							k.paths[join(p)] = true
+						} else {
+							k.paths[join(rel+"."+p)] = true
+						}
+					}
 				}
 			}
 		}
 	}
+}
+
+// mustPaths: the field paths (relative to the receiver of type *st) that method fn
+// assigns on every path from its entry to its returns — directly, or through further
+// methods of the value that must-assign them.
+func (k *c10cov) mustPaths(fn *ssa.Function, st types.Type, depth int) map[string]bool {
+	res := map[string]bool{}
+	if fn == nil || st == nil || depth > 3 || len(fn.Blocks) == 0 {
+		return res
+	}
+	resolve := func(addr ssa.Value) (string, bool) {
+		base, rel := c10AddrPath(addr)
+		if base == nil {
+			return "", false
+		}
+		if _, fresh := base.(*ssa.Alloc); fresh {
+			return "", false
+		}
+		pt, ok := base.Type().Underlying().(*types.Pointer)
+		if !ok || !types.Identical(pt.Elem().Underlying(), st.Underlying()) {
+			return "", false
+		}
+		return rel, true
+	}
+	cand := map[string]map[ssa.Instruction]bool{}
+	add := func(p string, in ssa.Instruction) {
+		if cand[p] == nil {
+			cand[p] = map[ssa.Instruction]bool{}
+		}
+		cand[p][in] = true
+	}
+	for _, b := range fn.Blocks {
+		for _, in := range b.Instrs {
+			switch x := in.(type) {
+			case *ssa.Store:
+				if rel, ok := resolve(x.Addr); ok {
+					add(rel, in)
+				}
+			case *ssa.Call:
+				cc := &x.Call
+				if cc.IsInvoke() || len(cc.Args) == 0 {
+					continue
+				}
+				if bi, ok := cc.Value.(*ssa.Builtin); ok {
+					if bi.Name() == "clear" && len(cc.Args) == 1 {
+						if ld, ok := cc.Args[0].(*ssa.UnOp); ok && ld.Op == token.MUL {
+							if rel, ok := resolve(ld.X); ok {
+								add(rel, in)
+							}
+						}
+					}
+					continue
+				}
+				fo, sf, _ := calleeObj(cc)
+				rel, ok := resolve(cc.Args[0])
+				if !ok || fo == nil {
+					continue
+				}
+				if fo.Pkg() != nil && fo.Pkg().Path() == "sync/atomic" && (fo.Name() == "Store" || fo.Name() == "Swap") {
+					add(rel, in)
+					continue
+				}
+				if sf == nil || fo.Pkg() == nil || !k.c.P.inModule(fo.Pkg().Path()) {
+					continue
+				}
+				if sig, _ := fo.Type().(*types.Signature); sig == nil || sig.Recv() == nil {
+					continue
+				}
+				sub := c10StructAt(st, rel)
+				if sub == nil {
+					continue
+				}
+				if _, isStruct := sub.Underlying().(*types.Struct); !isStruct {
+					continue
+				}
+				callee := sf
+				if o := callee.Origin(); o != nil {
+					callee = o
+				}
+				if callee == fn {
+					continue
+				}
+				for p := range k.mustPaths(callee, sub, depth+1) {
+					switch {
+					case p == "":
+						add(rel, in)
+					case rel == "":
+						add(p, in)
+					default:
+						add(rel+"."+p, in)
+					}
+				}
+			}
+		}
+	}
+	isRecv := func(e *Expr) bool { e = strip(e); return e != nil && e.K == EParam && e.Idx == 0 }
+	for p, ins := range cand {
+		set := ins
+		last := p
+		if i := strings.LastIndex(p, "."); i >= 0 {
+			last = p[i+1:]
+		}
+		// the field is also in its reset state on the edge where it is already zero
+		// (if x.f != nil { x.f(); x.f = nil }) and there is nothing to reset behind a nil receiver
+		sameField := func(e *Expr) bool {
+			e = strip(e)
+			return e != nil && e.K == EField && e.Name == last && Contains(isRecv)(e)
+		}
+		bars := []Barrier{
+			{Name: "assign " + p, Instr: func(in ssa.Instruction) bool { return set[in] }},
+			OnFalse("receiver is nil", isRecv),
+		}
+		if last != "" {
+			bars = append(bars, OnFalse(last+" already zero", sameField))
+		}
+		r := reach(entryPoint(fn), bars, nil)
+		must := true
+		for _, t := range r.order {
+			if isReturn(t) {
+				must = false
+				break
+			}
+		}
+		if must {
+			res[p] = true
+		}
+	}
+	return res
 }
 
 // covered: the path itself or an ancestor is assigned, or (struct-typed) all
